@@ -52,7 +52,17 @@ mod typed;
 
 impl Drv {
     pub fn new() -> Drv {
-        let root = gv::vm::new_vm();
+        // C19_STD_ROOT=<dir containing std/>: run against a (mutated) copy of the std sources – used only
+        // to try out that the oracle and the correspondence notice a changed std (see notes/C19.md)
+        let root = match std::env::var("C19_STD_ROOT") {
+            Ok(dir) => {
+                let vm = gluon::VmBuilder::new().import_paths(Some(vec![dir.into()])).build();
+                // the std sources are compiled into the gluon crate; read them from the directory instead
+                vm.get_database_mut().set_use_standard_lib(false);
+                vm
+            }
+            Err(_) => gv::vm::new_vm(),
+        };
         root.load_script("c19drv", DRIVER)
             .unwrap_or_else(|e| panic!("driver.glu does not compile: {}", e));
         let th = root.new_thread().unwrap();
@@ -775,19 +785,19 @@ fn run_json(drv: &mut Drv, out: &mut Out, v: &serde_json::Value, verbose: bool) 
 
 // ----------------------------------------------------------------------------------------- main
 
-fn replay(drv: &mut Drv, out: &mut Out, case: &serde_json::Value) {
+fn replay(drv: &mut Drv, out: &mut Out, case: &serde_json::Value, verbose: bool) {
     let geti = |k: &str| case[k].as_i64().unwrap_or(0);
     let getv = |k: &str| -> Vec<i64> {
         case[k].as_array().map(|a| a.iter().filter_map(|x| x.as_i64()).collect()).unwrap_or_default()
     };
     let gets = |k: &str| case[k].as_str().unwrap_or("").to_string();
     match case["area"].as_str().unwrap_or("") {
-        "map" => run_map(drv, out, &getv("ops"), true),
-        "list" => run_list(drv, out, geti("op"), &getv("xs"), &getv("ys"), geti("p"), geti("q"), true),
-        "arr" => run_arr(drv, out, geti("op"), &getv("xs"), &getv("ys"), geti("p"), geti("q"), true),
-        "sint" => run_sint(drv, out, geti("op"), &gets("s"), &gets("t"), geti("i"), true),
-        "sstr" => run_sstr(drv, out, geti("op"), &gets("s"), &gets("t"), geti("i"), geti("j"), true),
-        "json" => run_json(drv, out, &bits_decode(&case["value"]), true),
+        "map" => run_map(drv, out, &getv("ops"), verbose),
+        "list" => run_list(drv, out, geti("op"), &getv("xs"), &getv("ys"), geti("p"), geti("q"), verbose),
+        "arr" => run_arr(drv, out, geti("op"), &getv("xs"), &getv("ys"), geti("p"), geti("q"), verbose),
+        "sint" => run_sint(drv, out, geti("op"), &gets("s"), &gets("t"), geti("i"), verbose),
+        "sstr" => run_sstr(drv, out, geti("op"), &gets("s"), &gets("t"), geti("i"), geti("j"), verbose),
+        "json" => run_json(drv, out, &bits_decode(&case["value"]), verbose),
         "derive" => derive::replay(drv, out, case),
         "typed" => typed::replay(drv, out, case),
         a => println!("unknown replay area {:?}", a),
@@ -803,7 +813,7 @@ fn main() {
         let v: serde_json::Value = serde_json::from_str(&std::fs::read_to_string(f).unwrap()).unwrap();
         let case = if v.get("case").is_some() { v["case"].clone() } else { v["replay"].clone() };
         println!("replaying {}", case);
-        replay(&mut drv, &mut out, &case);
+        replay(&mut drv, &mut out, &case, true);
         println!("oracle failures: {}", out.n_oracle_fail);
         out.finish();
         return;
@@ -959,5 +969,5 @@ fn main() {
 }
 
 fn replay_quiet(drv: &mut Drv, out: &mut Out, case: &serde_json::Value) {
-    replay(drv, out, case)
+    replay(drv, out, case, false)
 }
